@@ -1,3 +1,3 @@
 #!/bin/sh
 cd "$(dirname "$0")/.."
-exec tools/seed_matrix.sh $(ls -d seeded/C??-[CD] | sort)
+exec tools/seed_matrix.sh $(ls -d seeded/C??-[CD] seeded/C04-A seeded/C17-A seeded/C18-A | sort)
